@@ -3,6 +3,10 @@ INVARIANT KeysInjective
 INVARIANT ReadDirRefines
 INVARIANT RemoveDirRefines
 INVARIANT CreateDirRefines
+INVARIANT RemoveFileRefines
+INVARIANT CreateFileRefines
+INVARIANT LookupRefines
+INVARIANT FlatWellFormed
 CHECK_DEADLOCK FALSE
 CONSTANTS
   NameSet <- NS
